@@ -445,17 +445,18 @@ func (f *Fixture) ResetConfig(w *faultkv.KV) error {
 		return fmt.Errorf("cluster not running")
 	}
 	rm := rcl.GetRuleManager()
+	def := &placement.Rule{GroupID: "pd", ID: "default", Role: placement.Voter,
+		Count: int(rc.MaxReplicas), LocationLabels: append([]string{}, rc.LocationLabels...)}
+	if err := rm.SetRule(def); err != nil {
+		return fmt.Errorf("reset default rule: %v", err)
+	}
+	// (the plain default rule first: it covers the whole key space, so the others can go in any order)
 	for _, r := range rm.GetAllRules() {
 		if !(r.GroupID == "pd" && r.ID == "default") {
 			if err := rm.DeleteRule(r.GroupID, r.ID); err != nil {
 				return err
 			}
 		}
-	}
-	def := &placement.Rule{GroupID: "pd", ID: "default", Role: placement.Voter,
-		Count: int(rc.MaxReplicas), LocationLabels: append([]string{}, rc.LocationLabels...)}
-	if err := rm.SetRule(def); err != nil {
-		return fmt.Errorf("reset default rule: %v", err)
 	}
 	if err := rcl.GetReplicationMode().UpdateConfig(mc); err != nil {
 		return fmt.Errorf("reset replication mode: %v", err)
